@@ -1,6 +1,7 @@
 """C12 — an engine is never built from an SDL that breaks a checked schema rule."""
 import copy
 import os
+import re
 import shutil
 
 from vt import boot, harness, sdlgen, smodel
@@ -63,6 +64,17 @@ EXPECTED_REASON = {
     "extend-schema-twice": ["multiple times", "already"],
     "directive-hook-not-awaitable": ["not awaitable", "async generator"],
 }
+
+
+_GENERIC = {"Int", "Float", "String", "Boolean", "ID", "OBJECT", "INTERFACE", "UNION", "ENUM", "SCALAR", "INPUT_OBJECT"}
+
+
+def mentions_target(r, message):
+    """Wording-independent half of the audit: the refusal names a type / directive / marker the rewrite touched (tokens of
+    the site label and of the added chunks that look like type names: an upper-case letter, digit or underscore in them)."""
+    toks = set(re.findall(r"[A-Za-z_][A-Za-z0-9_]*", r["site"] + " " + " ".join(r["extra"] or [])))
+    toks = {t for t in toks if len(t) >= 2 and t not in _GENERIC and re.search(r"[A-Z0-9_]", t)}
+    return any(re.search(r"(?<![A-Za-z0-9_])%s(?![A-Za-z0-9_])" % re.escape(t), message) for t in toks)
 
 
 def post_check(counters, distinct):
@@ -502,7 +514,7 @@ async def run_case(ctx, rng, index):
                 # error - would not exercise the clause it targets)
                 msg = (type(e).__name__ + " " + str(getattr(e, "message", e))).lower()
                 want = EXPECTED_REASON.get(r["rule"])
-                if want and not any(w in msg for w in want):
+                if want and not any(w in msg for w in want) and not mentions_target(r, str(getattr(e, "message", e))):
                     st.inc("refused-for-another-reason:" + r["rule"])
                     if os.environ.get("VERIF_C12_AUDIT"):
                         print("AUDIT", r["rule"], "|", r["site"], "|", msg[:200])
